@@ -19,7 +19,8 @@ RULE = ('Generated (start, end, pre_market, post_market) with end time-of-day >=
         '`session`: the clock a BacktestTradingSession iterates, with a burn-in date inside, at the edges of or after '
         'the range, equals the calendar for (start, end). Distinct = '
         'distinct case JSON; non-trivial = the range spans a weekend with >=2 business days, or is a single day, '
-        'or has no business day, or crosses a month/year/leap-day boundary, or is an end<start rejection.')
+        'or has no business day, or crosses a month/year/leap-day boundary, or is an end<start rejection.'
+        " Round-10 reach: flags passed positionally (`flags_how='positional'`).")
 ASSUMPTIONS = [
     'UTC-aware pandas Timestamps as in every documented example',
     'end time-of-day is not before the start time-of-day (the property\'s stated domain)',
@@ -91,6 +92,9 @@ def run_case(case):
         # only the first flag is given: the second keeps its documented default (True)
         eng = q.DailyBusinessDaySimulationEngine(start, end, pre_market=case['pre'])
         case = dict(case, post=True)
+    elif how == 'positional':
+        # the documented signature is (starting_day, ending_day, pre_market, post_market)
+        eng = q.DailyBusinessDaySimulationEngine(start, end, case['pre'], case['post'])
     elif how == 'defaults':
         eng = q.DailyBusinessDaySimulationEngine(start, end)
         case = dict(case, pre=True, post=True)
@@ -136,7 +140,7 @@ def run_case(case):
 def cases(draw):
     start, end = draw(gen.ranges())
     case = {'start': start, 'end': end, 'pre': draw(st.booleans()), 'post': draw(st.booleans()),
-            'flags_how': draw(st.sampled_from(['ctor', 'ctor', 'ctor', 'attr', 'numpy', 'int', 'pre_only', 'defaults']))}
+            'flags_how': draw(st.sampled_from(['ctor', 'ctor', 'ctor', 'attr', 'numpy', 'int', 'pre_only', 'defaults', 'positional']))}
     if draw(st.sampled_from([False] * 11 + [True])):
         # centuries away from today: the clock is calendar arithmetic, whatever resolution the timestamps use
         y = draw(st.sampled_from([1600, 1677, 2262, 2300, 3000]))
